@@ -18,10 +18,13 @@ func bigSize(r *core.Rand, tier string) int {
 	case 1:
 		return r.Range(100, 5000)
 	}
-	if tier == "thorough" && r.Chance(15) {
-		return []int{20000, 65535, 65536, 65537}[r.Intn(4)]
+	if tier == "thorough" {
+		if r.Chance(15) {
+			return []int{20000, 65535, 65536, 65537}[r.Intn(4)]
+		}
+		return r.Range(5000, 20000)
 	}
-	return r.Range(5000, 20000)
+	return r.Range(5000, 12000) // quick: keep the run short on every seed
 }
 
 // posClass: an index at one of the position classes 0, 1, n/2, n-2, n-1 (n > 0).
@@ -43,9 +46,9 @@ func genDLarge(r *core.Rand, tier string) core.Case {
 	lines := []string{fmt.Sprintf("@ C13 dlist %s %s big", kinds[r.Intn(2)], kinds[r.Intn(2)])}
 	g := &dSim{next: 2}
 	names := []string{"A", "B"}
-	limit := 45000
+	limit := 26000
 	if tier == "thorough" {
-		limit = 140000
+		limit = 80000
 	}
 	total := func() int { return len(g.l[0]) + len(g.l[1]) }
 	pushn := func(k, n int) {
@@ -1015,4 +1018,322 @@ func sLoopLine(r *core.Rand, ids, det *[]int, next *int, other *[]int) string {
 		}
 	}
 	return line
+}
+
+// ---------------------------------------------------------------- outside the contract (Tag "misuse")
+
+// Node forms given a node that is STILL LINKED (same or other list) and Init on a non-empty list:
+// undocumented misuse, where the code relinks without unlinking (c13_misuse_breaks: no abstract
+// state exists afterwards).  The independent oracle is silent from the misuse on; the case ties the
+// real pointer writes to the Lean model line by line (dumps are capped walks, so cycles are safe).
+func genDMisuse(r *core.Rand, tier string) core.Case {
+	kinds := []string{"z", "n"}
+	lines := []string{fmt.Sprintf("@ C13 dlist %s %s", kinds[r.Intn(2)], kinds[r.Intn(2)])}
+	names := []string{"A", "B"}
+	var l [2][]int
+	next := 2
+	add := func(f string, a ...any) { lines = append(lines, fmt.Sprintf(f, a...)) }
+	for i, m := 0, r.Range(1, 5); i < m; i++ {
+		add("pb A %d", r.Range(0, 9))
+		l[0] = append(l[0], next)
+		next++
+	}
+	for i, m := 0, r.Range(0, 3); i < m; i++ {
+		add("pb B %d", r.Range(0, 9))
+		l[1] = append(l[1], next)
+		next++
+	}
+	any := func() int { return 2 + r.Intn(next-2) }
+	end := func(k int) int { // a node of list k at an end or in the middle, else any node
+		if n := len(l[k]); n > 0 {
+			return l[k][posClass(r, n)]
+		}
+		return any()
+	}
+	misuse := func() {
+		k := r.Intn(2)
+		L := names[k]
+		src := k // where the still-linked node comes from
+		if r.Chance(50) {
+			src = 1 - k
+		}
+		e := end(src)
+		switch r.Pick(3, 3, 2, 2, 2) {
+		case 0:
+			add("pfn %s %d", L, e)
+		case 1:
+			add("pbn %s %d", L, e)
+		case 2:
+			add("inb %s %d %d", L, e, end(k))
+		case 3:
+			add("ina %s %d %d", L, e, end(k))
+		case 4:
+			add("init %s", L)
+		}
+	}
+	misuse()
+	for i, m := 0, r.Range(3, 9); i < m; i++ {
+		k := r.Intn(2)
+		L := names[k]
+		switch r.Pick(3, 3, 2, 2, 3, 2, 2, 2, 2, 2) {
+		case 0:
+			add("next %d", any())
+		case 1:
+			add("prev %d", any())
+		case 2:
+			add("%s %s", []string{"len", "front", "back"}[r.Intn(3)], L)
+		case 3:
+			add("rm %s %d", L, any())
+		case 4:
+			add("%s %s %d", []string{"mtf", "mtb"}[r.Intn(2)], L, any())
+		case 5:
+			add("%s %s %d %d", []string{"mb", "ma"}[r.Intn(2)], L, any(), any())
+		case 6:
+			add("%s %s %d", []string{"pb", "pf"}[r.Intn(2)], L, r.Range(0, 9))
+			next++
+		case 7:
+			add("setv %d %d", any(), r.Range(0, 9))
+		case 8:
+			misuse()
+		case 9:
+			add("%s %s %d %d", []string{"ib", "ia"}[r.Intn(2)], L, r.Range(0, 9), any())
+			// a node is allocated only if the mark is accepted: do not name later ids
+		}
+	}
+	return core.Case{Lines: lines, Tag: "misuse"}
+}
+
+func genSMisuse(r *core.Rand, tier string) core.Case {
+	lines := []string{"@ C13 slist " + []string{"z", "n"}[r.Intn(2)]}
+	add := func(f string, a ...any) { lines = append(lines, fmt.Sprintf(f, a...)) }
+	n := 0
+	for i, m := 0, r.Range(1, 5); i < m; i++ {
+		add("pb %d", r.Range(0, 9))
+		n++
+	}
+	if r.Chance(50) {
+		add("flip")
+		for i, m := 0, r.Range(1, 3); i < m; i++ {
+			add("pb %d", r.Range(0, 9))
+			n++
+		}
+		if r.Bool() {
+			add("flip")
+		}
+	}
+	any := func() int { return r.Intn(n) }
+	idx := func() int { return r.Range(-1, 5) }
+	misuse := func() {
+		switch r.Intn(3) {
+		case 0:
+			add("pfn %d", any())
+		case 1:
+			add("pbn %d", any())
+		default:
+			add("insn %d %d", idx(), any())
+		}
+	}
+	misuse()
+	// no value-allocating call from here on: the harness finds such nodes by walking from Front
+	for i, m := 0, r.Range(3, 9); i < m; i++ {
+		switch r.Pick(3, 2, 2, 2, 2, 2, 2, 1, 1) {
+		case 0:
+			add("next %d", any())
+		case 1:
+			add("%s", []string{"len", "front", "back"}[r.Intn(3)])
+		case 2:
+			add("get %d", idx())
+		case 3:
+			add("rm %d", idx())
+		case 4:
+			add("rmf")
+		case 5:
+			add("swap %d %d", idx(), idx())
+		case 6:
+			add("flip")
+		case 7:
+			add("setv %d %d", any(), r.Range(0, 9))
+		case 8:
+			misuse()
+		}
+	}
+	return core.Case{Lines: lines, Tag: "misuse"}
+}
+
+// ---------------------------------------------------------------- three DLists interleaved (Tag "three")
+
+// genD3: operations alternate between three lists sharing the node handles; handles of the two
+// other lists are passed as foreign nodes, removed nodes travel between all three lists through
+// the *Node forms, lists are copied onto each other and onto themselves.
+func genD3(r *core.Rand, tier string) core.Case {
+	kinds := []string{"z", "n"}
+	lines := []string{fmt.Sprintf("@ C13 dlist %s %s %s", kinds[r.Intn(2)], kinds[r.Intn(2)], kinds[r.Intn(2)])}
+	names := []string{"A", "B", "C"}
+	var l [3][]int
+	var det []int
+	next := 3
+	add := func(f string, a ...any) { lines = append(lines, fmt.Sprintf(f, a...)) }
+	pick := func(k int) int { // live in k (ends favoured) 55 %, foreign 30 %, removed 15 %
+		for try := 0; try < 4; try++ {
+			switch r.Pick(55, 30, 15) {
+			case 0:
+				if n := len(l[k]); n > 0 {
+					return l[k][posClass(r, n)]
+				}
+			case 1:
+				o := (k + 1 + r.Intn(2)) % 3
+				if n := len(l[o]); n > 0 {
+					return l[o][r.Intn(n)]
+				}
+			case 2:
+				if n := len(det); n > 0 {
+					return det[r.Intn(n)]
+				}
+			}
+		}
+		if next > 3 {
+			return 3 + r.Intn(next-3)
+		}
+		return -1
+	}
+	n := r.Range(8, 45)
+	for len(lines) <= n {
+		k := r.Intn(3)
+		L := names[k]
+		v := r.Range(0, 9)
+		switch r.Pick(12, 6, 8, 6, 6, 6, 6, 4, 3, 3, 2, 2) {
+		case 0:
+			add("pb %s %d", L, v)
+			l[k] = append(l[k], next)
+			next++
+		case 1:
+			add("pf %s %d", L, v)
+			l[k] = insAt(l[k], 0, next)
+			next++
+		case 2:
+			e := pick(k)
+			if e < 0 {
+				continue
+			}
+			add("rm %s %d", L, e)
+			if idxOf(l[k], e) >= 0 {
+				l[k] = del(l[k], e)
+				det = append(det, e)
+			}
+		case 3:
+			e := pick(k)
+			if e < 0 {
+				continue
+			}
+			if r.Bool() {
+				add("mtf %s %d", L, e)
+				if idxOf(l[k], e) >= 0 {
+					l[k] = insAt(del(l[k], e), 0, e)
+				}
+			} else {
+				add("mtb %s %d", L, e)
+				if idxOf(l[k], e) >= 0 {
+					l[k] = append(del(l[k], e), e)
+				}
+			}
+		case 4:
+			e, m := pick(k), pick(k)
+			if e < 0 || m < 0 {
+				continue
+			}
+			op, off := "mb", 0
+			if r.Bool() {
+				op, off = "ma", 1
+			}
+			add("%s %s %d %d", op, L, e, m)
+			if e != m && idxOf(l[k], e) >= 0 && idxOf(l[k], m) >= 0 {
+				s := del(l[k], e)
+				l[k] = insAt(s, idxOf(s, m)+off, e)
+			}
+		case 5:
+			m := pick(k)
+			if m < 0 {
+				continue
+			}
+			op, off := "ib", 0
+			if r.Bool() {
+				op, off = "ia", 1
+			}
+			add("%s %s %d %d", op, L, v, m)
+			if j := idxOf(l[k], m); j >= 0 {
+				l[k] = insAt(l[k], j+off, next)
+				next++
+			}
+		case 6: // a removed node enters another (or the same) list through a *Node form
+			if len(det) == 0 {
+				continue
+			}
+			e := det[r.Intn(len(det))]
+			switch r.Intn(3) {
+			case 0:
+				det = del(det, e)
+				add("pfn %s %d", L, e)
+				l[k] = insAt(l[k], 0, e)
+			case 1:
+				det = del(det, e)
+				add("pbn %s %d", L, e)
+				l[k] = append(l[k], e)
+			default:
+				m := pick(k)
+				if m < 0 || m == e {
+					continue
+				}
+				op, off := "inb", 0
+				if r.Bool() {
+					op, off = "ina", 1
+				}
+				add("%s %s %d %d", op, L, e, m)
+				if j := idxOf(l[k], m); j >= 0 {
+					det = del(det, e)
+					l[k] = insAt(l[k], j+off, e)
+				}
+			}
+		case 7: // copy any of the three onto this one
+			o := r.Intn(3)
+			if len(l[k])+len(l[o]) > 50 {
+				continue
+			}
+			cnt := len(l[o])
+			ids := make([]int, cnt)
+			for j := range ids {
+				ids[j] = next
+				next++
+			}
+			if r.Bool() {
+				add("pbl %s %s", L, names[o])
+				l[k] = append(append([]int{}, l[k]...), ids...)
+			} else {
+				add("pfl %s %s", L, names[o])
+				rev := make([]int, cnt)
+				for j := range ids {
+					rev[cnt-1-j] = ids[j]
+				}
+				l[k] = append(rev, l[k]...)
+			}
+		case 8:
+			e := pick(k)
+			if e < 0 {
+				continue
+			}
+			add("%s %d", []string{"next", "prev"}[r.Intn(2)], e)
+		case 9:
+			add("%s %s", []string{"len", "front", "back"}[r.Intn(3)], L)
+		case 10:
+			e := pick(k)
+			if e < 0 {
+				continue
+			}
+			add("setv %d %d", e, v)
+		case 11:
+			add("new %d", v)
+			det = append(det, next)
+			next++
+		}
+	}
+	return core.Case{Lines: lines, Tag: "three"}
 }
